@@ -429,6 +429,8 @@ def _build_hs(spec, objs):
     if op == "leaf":
         d = build(spec["div"], objs)
         return +d if spec["side"] else -d
+    if op == "comp":                       # the complement of a cell: ~cell
+        return ~build(spec["div"], objs)
     if op == "not":
         return ~_build_hs(spec["a"], objs)
     a, b = _build_hs(spec["a"], objs), _build_hs(spec["b"], objs)
@@ -1256,9 +1258,23 @@ def special_candidates(rng, e, lab, snap, blind):
                     out.append(("collision", [{"t": "new", "kind": "cell", "number": rng.choice(others)}]))
                 if surfs:
                     out.append(("wrong type", [O(rng.choice(surfs))]))
-    elif key == "Cell.geometry" and not blind:
-        nums = [s.number for s in obj.surfaces]
+    elif key in ("Cell.geometry", "HalfSpace.left", "HalfSpace.right") and not blind:
+        cell = obj if key == "Cell.geometry" else getattr(obj, "_cell", None)
+        nums = [s.number for s in cell.surfaces] if cell is not None else []
         if nums:
+            # a tree that brings a cell the target does not complement yet AND a foreign surface numbered like one
+            # of the target's own surfaces: the two collections of the cell are filled one after the other
+            fresh_cells = [l for l in cells if snap.objs[l] is not cell
+                           and not any(snap.objs[l] is c for c in cell.complements)]
+            foreign = {"t": "hs", "op": "leaf", "side": True,
+                       "div": {"t": "new", "kind": "surface", "number": rng.choice(nums), "consts": "123.25"}}
+            for l in rng.sample(fresh_cells, min(2, len(fresh_cells))):
+                comp = {"t": "hs", "op": "comp", "div": O(l)}
+                out += [("collision", [{"t": "hs", "op": "and", "a": comp, "b": foreign}]),
+                        ("collision", [{"t": "hs", "op": "or", "a": foreign, "b": comp}])]
+            out.append(("collision", [{"t": "hs", "op": "and", "a": {"t": "hs", "op": "comp", "div": {"t": "new", "kind": "cell", "number": 940 + rng.randrange(40)}},
+                                       "b": foreign}]))
+        if nums and key == "Cell.geometry":
             free = 700 + rng.randrange(90)
             leaf = lambda spec, side=True: {"t": "hs", "op": "leaf", "side": side, "div": spec}   # noqa: E731
             good = leaf({"t": "new", "kind": "surface", "number": free}, False)
